@@ -53,7 +53,7 @@ func (p *c03) Bounds(tier string) map[string]interface{} {
 
 func c03Bounds(tier string) (int, int) {
 	if tier == "thorough" {
-		return 6, 3
+		return 5, 3
 	}
 	return 4, 2
 }
